@@ -16,15 +16,18 @@ class LogModel(Model):
 
 
 class S(System):
-    __slots__ = ['completes']
+    __slots__ = ['completes', 'first']
 
     def __init__(self, id, model, priority=0):
         super().__init__(id, model, priority=priority)
         self.completes = False
+        self.first = None
 
     def execute(self):
         self.model.log.append((self.id, self.model.systems.timestep))
         if self.completes:
+            if self.first is not None:
+                self.first()                 # a structural change of the system set right before completing
             self.model.complete()
 
 
@@ -64,6 +67,15 @@ def complete_midstep(p0: int, p1: int, p2: int, p3: int, c: int, t: int) -> bool
         for i, s_ in enumerate(q):
             if i > c:
                 s_.model = other
+    also = hx.P.get('also')
+    if also == 'cleanup':                # the completing system deregisters itself, then completes the model
+        hx.pick(q, c).first = hx.pick(q, c).clean_up
+    elif also == 'spawn':                # ... registers one more (lowest-priority) system, then completes the model
+        late = S("late", m, p3 - 1)
+        late.start, late.end = t, t + 1000
+        hx.pick(q, c).first = lambda: m.systems.add_system(late)
+    elif also == 'remove_first':         # ... removes the system that ran first in this timestep, then completes
+        hx.pick(q, c).first = lambda: m.systems.remove_system(q[0].id) if c > 0 else None
     if not m.is_running() or not bool(m):
         return hx.end(hx.fail("fresh model not running"))
     m.execute()
@@ -317,7 +329,8 @@ def obligations(tier):
     ns = (1, 2, 3) if tier == "quick" else (1, 2, 3, 4)
     N = 3 if tier == "quick" else 5
     return [
-        X("complete_midstep", complete_midstep, parts=[{"n": n} for n in ns] + [{"n": 2, "foreign": True}, {"n": 3, "foreign": True}],
+        X("complete_midstep", complete_midstep, parts=[{"n": n} for n in ns] + [{"n": 2, "foreign": True}, {"n": 3, "foreign": True}] +
+          [{"n": n, "also": a} for n in (2, 3) for a in ("cleanup", "spawn", "remove_first")],
           labels=("skipped_rest",), labels_for=lambda p: ("skipped_rest",) if p["n"] > 1 else (), timeout=300, encoded=enc,
           bounds={"n": "1..%d" % ns[-1]}),
         X("complete_during_multistep", complete_during_multistep,
